@@ -30,5 +30,22 @@ def install(reg):
             "whitespace_never_kept_by_default": "implies(not keep_whitespace, forall(0, len(result), lambda k: not result[k].is_whitespace()))",
             "comments_only_on_request": "implies(not keep_comments and not keep_whitespace, forall(0, len(result), lambda k: not result[k].is_comment()))",
         },
-        props=("C16", "C04", "C17"),
+        caller_ensures=[], props=("C16", "C04", "C17"),
     )
+
+
+def install_nocl(reg):
+    reg.contract(
+        SU + "filter_nocl_comment_tokens", params={"tokens": "list[Token]"}, returns="list[Token]", fresh_result=True, pure=True,
+        ensures={"exactly_the_marker_comments_in_order":
+                 "same_list(result, [t for t in tokens if t.is_comment() and is_marker(t.value)])"},
+        props=("C17", "C04"),
+    )
+
+
+_install_a = install
+
+
+def install(reg):
+    _install_a(reg)
+    install_nocl(reg)
